@@ -24,7 +24,7 @@ PROPS = {
         "assumptions": ["the registry snapshot is correct"],
     },
     "C08": {
-        "modules": ["Cose.Props.C08"],
+        "modules": ["Cose.Props.C08", "Cose.Props.C08Wire"],
         "families": ["cbor", "map", "msg:wrongtype", "msg:gomap", "msg:C08", "claims", "api"],
         "spec_ops": ["cbor.enc", "wire.wrongtype", "wire.badbucket", "wire.badpayload", "cbor.encdup", "wire.msgdup"],
         "n_quick": 8000, "n_thorough": 200000,
